@@ -158,6 +158,52 @@ CLAIMED = {
          "STL30.01 is read as 30000/1001 drop-frame.",
     technique="TLA+ state machines for the TTI accumulator and text-field pen model-checked with TLC; enumerated inputs replayed; recorded reads validated by folding the machine in TLC",
     design_ref="6/C09, NOTES_C09.md"),
+  "C03": dict(
+    level="model_checking",
+    text="spec/Styles.tla transcribes TTML2/IMSC style resolution: a 36-entry property table (inherited?, applicable kinds, "
+         "initial value, compute class - each entry marked INDEPENDENT or PINS-the-code), Specified = last active animation "
+         "step else specified value, Resolved = specified else inherited computed value (textDecoration merged per component, "
+         "ruby text at half the parent font size) else document initial else default, region direction from writingMode, and "
+         "Computed per class with exact rationals (fontSize, lengths relative to the font size, extent, origin, padding by "
+         "writing-mode axis, position edges against the computed extent, emphasis/outline/shadow colour defaults, disparity). "
+         "spec/StyleSweep.tla: TLC checks eight invariants and an action property over 19 bounded families (inheritance "
+         "chains region->body->div->p->span->span x unset/v1/v2 x animation x initial override; unit chains x cell/pixel "
+         "resolutions x writing modes). Every dumped family state is rebuilt with the model API and get_style of every "
+         "snapshot element is recorded; seeded random decorated documents add code -> spec traces; spec/Trace_Styles.tla "
+         "compares every (element, property) with Comp(doc, region, node, property, t).",
+    note="Trusted: TLC; the value catalogue and projection (floats scaled by 10^4, tolerance 2 units against exact rationals); "
+         "which elements appear is C01's business and which properties they carry is C13's. Where TTML2 is silent the value is "
+         "skipped and counted (documented in NOTES_C03.md).",
+    technique="TLA+ transcription of TTML2 style resolution; TLC-checked design families replayed into the code; recorded computed styles validated by TLC",
+    design_ref="6/C03, NOTES_C03.md"),
+  "C16": dict(
+    level="model_checking",
+    text="spec/Lcd.tla specifies the LCD filter as an operator on abstract documents with postconditions (no animation steps, "
+         "only the allowed styles as configured, every region exactly the safe area, regions with equal timing / writing mode "
+         "/ alignment merged with all references redirected, same text timeline for documents that do not hide content, "
+         "configured colours and alignment computed in snapshots, idempotent, total); TLC checks that the operator satisfies "
+         "them over a bounded family (origin/position/extent in every unit x writing modes x alignments; 2-3 regions with "
+         "references incl. conflicting ones; 0-4 animation steps per element; structure variants). Every family document x "
+         "rotating configurations and seeded random documents are filtered by the real LCDDocFilter and recorded (before, "
+         "config, after, after twice, visible text ids at grid times); spec/Trace_Lcd.tla judges 15 clauses.",
+    note="Trusted: TLC, the document builder/projection. Which display alignment a region receives is a parameter of the spec "
+         "(neither the property nor the README define it). Two known findings are inherent in merging (NOTES_C16.md).",
+    technique="TLA+ operator + postconditions model-checked with TLC; enumerated family replayed through the filter; recorded before/after documents validated by TLC",
+    design_ref="6/C16, NOTES_C16.md"),
+  "C19": dict(
+    level="model_checking",
+    text="spec/Cli.tla: Dispatch (option over extension, case-insensitive, leading dot), ConfigAccept (96 catalogue settings: "
+         "every documented key x valid/boundary/invalid, from the README), Effective (configuration file wins), and the Convert "
+         "action over unconstrained process-global state with out' = Lib(job); TLC checks DispatchFacts, EffectiveFacts, "
+         "CatalogueConsistent, HistoryIndependent and OutputWellFormed and enumerates all histories of <= 3 (thorough: 4) jobs. "
+         "Each history runs in ONE interpreter through ttconv.tt.main under hash seeds 0, 1, 12345; the bytes are compared "
+         "with the library composition (reader -> filters in order -> writer with parsed configurations) run in fresh "
+         "processes; exit status / exception / existence of the output file are recorded; spec/Trace_Cli.tla replays Convert "
+         "along every recorded history.",
+    note="Trusted: TLC; the README as the source of documented configuration domains; output equality by content id (table of "
+         "distinct outputs).",
+    technique="TLA+ dispatch/configuration tables and Convert state machine checked with TLC; TLC-enumerated histories replayed through the CLI; recorded runs validated by TLC",
+    design_ref="6/C19, NOTES_C19.md"),
 }
 
 NOT_YET = "check not built yet in this round; see DESIGN.md section 6 for the planned TLA+ specification"
